@@ -1,6 +1,6 @@
 (** Correspondence glue for the varint unit: a case is what the Go harness logged. *)
 From Coq Require Import List ZArith Bool String.
-From V Require Import Lib.Hex Wire.Varint.
+From V Require Import Lib.Corr Lib.Hex Wire.Varint.
 Import ListNotations.
 Open Scope Z_scope.
 
